@@ -22,6 +22,7 @@ void __real_nni_aio_fini(nni_aio *);
 void __real_nni_aio_abort(nni_aio *, nng_err);
 void __real_nni_aio_close(nni_aio *);
 void __real_nni_sleep_aio(nng_duration, nng_aio *);
+void __real_nni_aio_set_expire(nni_aio *, nni_time);
 
 typedef struct Ent {
 	nni_task *task;
@@ -42,6 +43,8 @@ typedef struct Ent {
 	                       // after its deadline had already passed, and no
 	                       // timeout has been delivered for this aio since
 	bool      in_start;    // inside nni_aio_start / nni_sleep_aio
+	bool      abs_fresh;   // nni_aio_set_expire was called for the submission
+	                       // about to start (cleared by start and completion)
 	uint64_t  refusal_mask; // bit (k mod 64): completion k was a refused start
 } Ent;
 
@@ -187,6 +190,7 @@ note_completion(nni_task *task, bool sync)
 	if (e == NULL || e->dead)
 		return;
 	nni_aio *aio = aio_of(task);
+	e->abs_fresh = false;
 	sim_debug("aio#%u complete result=%d sync=%d accepted=%d", e->id,
 	    (int) aio->a_result, (int) sync, (int) e->accepted);
 	if (e->cb != NULL && e->completions > e->cb_begun) {
@@ -257,6 +261,15 @@ __wrap_nni_task_exec(nni_task *task)
 	__real_nni_task_exec(task);
 }
 
+void
+__wrap_nni_aio_set_expire(nni_aio *aio, nni_time when)
+{
+	Ent *e = mon_off ? NULL : lookup(&aio->a_task);
+	if (e != NULL && !e->dead)
+		e->abs_fresh = true;
+	__real_nni_aio_set_expire(aio, when);
+}
+
 bool
 __wrap_nni_aio_start(nni_aio *aio, nni_aio_cancel_fn fn, void *data)
 {
@@ -267,11 +280,26 @@ __wrap_nni_aio_start(nni_aio *aio, nni_aio_cancel_fn fn, void *data)
 			sim_probe("aio_start_while_pending");
 	}
 	bool sleeping = aio->a_sleep;
-	if (e != NULL)
-		e->in_start = true;
+	bool fresh    = e != NULL && e->abs_fresh;
+	if (e != NULL) {
+		e->in_start  = true;
+		e->abs_fresh = false;
+	}
 	bool ok = __real_nni_aio_start(aio, fn, data);
 	if (e != NULL)
 		e->in_start = false;
+	// "A timeout never fires before the configured duration": a submission
+	// refused on the spot with NNG_ETIMEDOUT needs a zero timeout or an
+	// absolute expiration that was set for *this* submission
+	if (e != NULL && !e->dead && !ok && !sleeping && !fresh &&
+	    aio->a_result == NNG_ETIMEDOUT && aio->a_timeout != NNG_DURATION_ZERO) {
+		sim_violation("C02", "early_timeout",
+		    "aio #%u was refused at submission with NNG_ETIMEDOUT although its "
+		    "timeout is %d ms and no absolute expiration was set for this "
+		    "submission (a stale one from an earlier operation: %llu, now %llu)",
+		    e->id, (int) aio->a_timeout, (unsigned long long) aio->a_expire,
+		    (unsigned long long) sim_now_ms());
+	}
 	if (e != NULL)
 		sim_debug("aio#%u start ok=%d timeout=%d expire=%llu", e->id, (int) ok,
 		    (int) aio->a_timeout, (unsigned long long) aio->a_expire);
@@ -284,6 +312,11 @@ __wrap_nni_aio_start(nni_aio *aio, nni_aio_cancel_fn fn, void *data)
 			e->expire_ms = aio->a_expire == NNI_TIME_NEVER
 			    ? 0
 			    : (uint64_t) aio->a_expire;
+			// without an absolute expiration of its own the configured
+			// duration governs, whatever the aio still carries
+			if (!fresh && !sleeping && aio->a_timeout > 0 &&
+			    e->expire_ms < e->start_ms + (uint64_t) aio->a_timeout)
+				e->expire_ms = e->start_ms + (uint64_t) aio->a_timeout;
 		} else {
 			C.refused++;
 			sim_probe("aio_start_refused");
